@@ -311,6 +311,14 @@ def fuzz_variant(ctx, exe, cases, variant, found):
     """run the stream; HANG/MEM cases whose result may be legitimately large are retried alone with much larger limits"""
     t0 = time.time()
     res = run_supervised(exe, [c['line'] for c in cases], ENV_SAN, what='cx_fuzzapi[%s]' % variant)
+    # a child killed by the WALL-clock backstop (no CPU-limit signal) was blocked or starved, e.g. on an overloaded
+    # machine: the CPU-time limit is the hang detector; such a case is simply run again, alone
+    stalled = [i for i, r in enumerate(res) if r['status'] == 'HANG' and 'cpu-limit' not in r['detail'][:120]]
+    if stalled:
+        again = run_supervised(exe, [cases[i]['line'] for i in stalled], ENV_SAN, chunk=1, what='cx_fuzzapi[%s] stalled' % variant)
+        for i, r2 in zip(stalled, again):
+            ctx.hist('wall_clock_stalls', '%s -> %s' % (res[i]['entry'], r2['status']))
+            res[i] = r2
     retry = [i for i, r in enumerate(res) if r['status'] in ('HANG', 'MEM') and potentially_large(cases[i]['line'])]
     if retry:
         again = run_supervised(exe, [cases[i]['line'] for i in retry], ENV_SAN, RETRY_TIMEOUT_MS, RETRY_RSS_MB, chunk=1, what='cx_fuzzapi[%s] retry' % variant)
@@ -554,6 +562,12 @@ def newfail(ctx, exe, variant, cases, upto, nsample, found):
     t0 = time.time()
     lines = ['NF %d %d 2 %s' % (upto, nsample, c['line']) for c in cases]
     res = run_supervised(exe, lines, ENV_NF, 60000, 4096, chunk=6, what='cx_newfail[%s]' % variant)     # 60 s CPU per injected run
+    stalled = [i for i, r in enumerate(res) if r['status'] == 'HANG' and 'cpu-limit' not in r['detail'][:160]]
+    if stalled:
+        again = run_supervised(exe, [lines[i] for i in stalled], ENV_NF, 60000, 4096, chunk=1, what='cx_newfail[%s] stalled' % variant)
+        for i, r2 in zip(stalled, again):
+            ctx.hist('wall_clock_stalls', 'nf %s -> %s' % (res[i]['entry'], r2['status']))
+            res[i] = r2
     runs = 0
     for c, r in zip(cases, res):
         ctx.hist('newfail_status_' + variant, r['status'])
@@ -667,6 +681,7 @@ def run(ctx):
         if ('nf', variant) not in exes or variant not in base:
             continue
         okc = [c for c, r in zip(stream, base[variant]) if r['status'] == 'OK']
+        ok_lines = set(c['line'] for c in okc)
         # stratified by command: the same number of operations of every kind
         by = collections.defaultdict(list)
         for c in okc:
@@ -681,7 +696,9 @@ def run(ctx):
             newfail(ctx, exes[('nf', variant)], variant, sel, 128, 16, found)
         else:
             newfail(ctx, exes[('nf', variant)], variant, sel, 10 ** 9, 0, found)
-        ctx.count('evaluations', len(sel))
+        seeds = malformed.nf_seed_cases() + [c for c in malformed.fixed_cases() if c['line'] in ok_lines]
+        newfail(ctx, exes[('nf', variant)], variant, seeds, 10 ** 9, 0, found)          # every k, both tiers
+        ctx.count('evaluations', len(sel) + len(seeds))
     # ---- 7. decide
     for key in sorted(found):
         v = found[key]
